@@ -62,6 +62,40 @@ func (p *Parser) ExtractImports(file *ast.File) map[string]string {
 	return imports
 }
 
+// ExtractImportsWithInfo is ExtractImports with the real package names: for an import
+// without alias the package name is taken from the type information, because it need not
+// be the last element of the import path (gopkg.in/yaml.v3 -> yaml, .../go-store -> store).
+func (p *Parser) ExtractImportsWithInfo(file *ast.File, info *types.Info) map[string]string {
+	imports := p.ExtractImports(file)
+	if info == nil {
+		return imports
+	}
+
+	for _, imp := range file.Imports {
+		if imp.Name != nil {
+			continue
+		}
+
+		pkgName, ok := info.Implicits[imp].(*types.PkgName)
+		if !ok || pkgName == nil {
+			continue
+		}
+
+		path := strings.Trim(imp.Path.Value, "\"")
+		guessed := lastPathElement(path)
+		if pkgName.Name() == guessed {
+			continue
+		}
+
+		if imports[guessed] == path {
+			delete(imports, guessed)
+		}
+		imports[pkgName.Name()] = path
+	}
+
+	return imports
+}
+
 // ExtractPatterns extracts wire patterns from the file.
 func (p *Parser) ExtractPatterns(file *ast.File, info *types.Info, wireAlias string, filePath string) ([]WirePattern, []Warning) {
 	var patterns []WirePattern
